@@ -1064,6 +1064,15 @@ fn conc_props(tier: &str, seed: u64, out: &str) {
                 scenarios.push((format!("{iname}:{}||{}", muts[a], r), init.clone(), format!("{}|{}", muts[a], r)));
             }
         }
+        // three nodes: the middle node of a chain is isolated / re-linked while its neighbours' edges change
+        if *iname == "u->v" {
+            for (a, b) in [("x.1", "c.1.2.3"), ("x.1", "c.2.1.3"), ("x.1", "d.0.1"), ("t.0.2.5", "x.2"), ("d.0.1", "t.1.2.4"), ("x.1", "B.0.2"), ("c.2.0.1", "P.0")] {
+                let mut init3 = vec!["new 2 0".to_string()];
+                init3.extend(init.iter().cloned());
+                init3.push("connect 1 2 4".into());
+                scenarios.push((format!("{iname}+1->2:{a}||{b}"), init3, format!("{a}|{b}")));
+            }
+        }
         // node lifetime: a thread makes a node of its own, connects it, disconnects it again and drops its only handle
         // while another thread iterates or traverses the node it was attached to
         for life in ["m.2.0/c.0.2.1/d.0.2/k.2", "m.2.0/c.2.0.1/d.2.0/k.2", "m.2.0/c.0.2.1/x.2/k.2"] {
